@@ -144,7 +144,10 @@ def build_proofs(bdir, prop, files, log, timeout=3000, jobs=NPROC):
     dst = os.path.join(bdir, "proofs", prop)
     os.makedirs(dst, exist_ok=True)
     for f in files:
-        s, d = os.path.join(src, f), os.path.join(dst, f)
+        # an entry "../Cyy/file.v" is a proof file of another property that this one imports
+        # (From Proofs.Cyy Require ...): it is copied to proofs/Cyy/ of this build and compiled here
+        s, d = os.path.normpath(os.path.join(src, f)), os.path.normpath(os.path.join(dst, f))
+        os.makedirs(os.path.dirname(d), exist_ok=True)
         if not os.path.exists(d) or open(s).read() != open(d).read():
             shutil.copy(s, d)
             for ext in (".vo", ".glob", ".vok", ".vos"):
@@ -156,7 +159,7 @@ def build_proofs(bdir, prop, files, log, timeout=3000, jobs=NPROC):
             f.write("-Q %s PyLib\n-Q %s Spec\n-Q gen Gen\n-Q proofs Proofs\n" % (
                 os.path.join(VERIF, "coq", "lib"), os.path.join(VERIF, "coq", "spec")))
             for x in files:
-                f.write("proofs/%s/%s\n" % (prop, x))
+                f.write(os.path.normpath("proofs/%s/%s" % (prop, x)) + "\n")
         mk = "Makefile.%s" % prop
         rc, out, _ = sh("coq_makefile -f %s -o %s 2>&1" % (os.path.basename(cp), mk), cwd=bdir, timeout=120)
         if rc != 0:
